@@ -1,6 +1,7 @@
 import BarterModel.Model.ExchangeStream
 import BarterModel.Model.BinanceL2
 import BarterModel.Model.Streams
+import BarterModel.Model.BookManager
 /-!
 # End-to-end Binance L2 pipeline: websocket frames → local order books (sub-check C06E of C06)
 
@@ -390,6 +391,13 @@ structure OInst where
   venue : Venue
   constrained : Bool
   inst : SpecInstrument
+  /-- `depth k n`: the REST snapshots of this instrument hold the best `n` levels per side only (the
+  code's fetchers request `limit=100`); `none`: full depth -/
+  limit : Option Nat := none
+  /-- the snapshot the current connection started this instrument from -/
+  snapshot : Option OrderBook := none
+  /-- the prices written by the updates admitted since that snapshot -/
+  written : List (Side × Rat) := []
   deriving Repr, Inhabited
 
 structure Oracle where
@@ -405,7 +413,8 @@ structure Oracle where
   deriving Repr, Inhabited
 
 def Oracle.init (rules : Rules) (insts : List (Nat × Nat × Venue)) : Oracle :=
-  ⟨rules, insts.map fun x => ⟨x.1, x.2.1, x.2.2, false, ⟨0, 0⟩⟩, .initPending, false, false, 0, 0⟩
+  ⟨rules, insts.map fun x => { sub := x.1, key := x.2.1, venue := x.2.2, constrained := false, inst := ⟨0, 0⟩ },
+    .initPending, false, false, 0, 0⟩
 
 /-- the first initial event of an instrument, if it is a snapshot -/
 def firstSnapshot (snapshots : List MarketEv) (key : Nat) : Option OrderBook :=
@@ -421,10 +430,15 @@ def freshInsts (insts : List OInst) (snapshots : List MarketEv) : List OInst :=
     match firstSnapshot snapshots i.key with
     | none => i
     | some b =>
+      -- the REST answer: the venue's book as of its id, cut to the declared depth (if any)
+      let truth := match i.limit with
+        | none => specBook i.venue b.sequence
+        | some n => truncateBook n (specBook i.venue b.sequence)
       { i with
         inst := ⟨0, b.sequence⟩
-        constrained := (snapshots.filter fun s => s.1 == i.key).length == 1 &&
-          decide (b = specBook i.venue b.sequence) }
+        snapshot := some b
+        written := []
+        constrained := (snapshots.filter fun s => s.1 == i.key).length == 1 && decide (b = truth) }
 
 /-- The messages buffered during subscription validation are handed out *before* the snapshots
 (`lib.rs:251-261`). Skips and parse failures among them are dropped; an update for an unknown symbol
@@ -484,7 +498,9 @@ def Oracle.frame (o : Oracle) (k : FrameKind) : Oracle :=
       | (inst', .extended) =>
         { o with insts := o.insts.map fun j =>
             if j.sub == m.sub then
-              { j with inst := inst', constrained := j.constrained && decide (GenuineMsg o.rules j.venue m) }
+              { j with inst := inst', constrained := j.constrained && decide (GenuineMsg o.rules j.venue m),
+                       written := (m.bids.map fun l => (Side.bids, l.price)) ++
+                         (m.asks.map fun l => (Side.asks, l.price)) ++ j.written }
             else j }
       | (_, .told) => { o with live := false, notices := o.notices + 1 }
 
@@ -494,5 +510,55 @@ def Oracle.eos (o : Oracle) : Oracle :=
 
 /-- the book the consumer must hold for a constrained instrument -/
 def OInst.expected (i : OInst) : OrderBook := specBook i.venue i.inst.last
+
+/-- the whole-book claim is stated when the snapshot is the venue's FULL book: no depth limit declared, or
+the limit cuts nothing (both sides of the snapshot hold fewer levels than the limit) -/
+def OInst.full (i : OInst) : Bool :=
+  match i.limit, i.snapshot with
+  | none, _ => true
+  | some n, some b => decide (b.bids.length < n) && decide (b.asks.length < n)
+  | some _, none => false
+
+/-- the prices at which the per-level claim is stated for a depth-limited instrument
+(`Props.C06.book_is_truth_on`, `Props.C06E.pipeline_book_is_truth_on`) -/
+def OInst.known (i : OInst) (sd : Side) (p : Rat) : Bool :=
+  match i.limit, i.snapshot with
+  | some n, some b => knownPrice n b i.written i.venue i.inst.last sd p
+  | _, _ => false
+
+/-- … and the amount claimed there: the venue's, as of the id the instrument reports -/
+def OInst.expectedAt (i : OInst) (sd : Side) (p : Rat) : Rat := abs (specSide i.venue i.inst.last sd) p
+
+/-! ### The manager's cells with the code's own search (review of the sub-checks, report_A C06E-3)
+
+`OrderBook.update` / `managerRun` (C05, `Model/Book.lean`) model `upsert_single`'s
+`binary_search_by` by a front-to-back scan, which is what a binary search returns on a side whose prices
+are pairwise distinct. A REST snapshot goes unvalidated into `OrderBook::new` (sort only, no
+de-duplication: `exchange/binance/book/l2.rs`, `books/mod.rs:148-185`), so a snapshot listing a price
+twice leaves a side on which scan and binary search pick different levels. What the real manager's cells
+hold is the run with the real search — `BookManager.upsertBS` (C05M's model of `binary_search_by`, tied to
+the code by C05M's correspondence, dirty sides included). `drv_c06e model` prints these books;
+`Props.C06E.books_follow_the_code_search` shows they are `managerRun`'s whenever every snapshot side is
+strictly ordered, `repeated_price_snapshot_witness` shows the difference at the excluded point. -/
+
+/-- `OrderBook::update` with `upsert_single`'s real binary search -/
+def updateBS (b : OrderBook) : Event → OrderBook
+  | .snapshot snapshot => snapshot
+  | .update update =>
+    { sequence := update.sequence
+      bids := BookManager.upsertBS .bids b.bids update.bids
+      asks := BookManager.upsertBS .asks b.asks update.asks }
+
+/-- one iteration of `OrderBookL2Manager::run` with the real search -/
+def managerStepBS (books : Books) : StreamEvent → Books
+  | .reconnecting => books
+  | .item k ev => books.map fun (k', b) => if k' = k then (k', updateBS b ev) else (k', b)
+
+def managerRunBS (books : Books) (stream : List StreamEvent) : Books :=
+  stream.foldl managerStepBS books
+
+/-- the cells of the real manager after the pipeline's events -/
+def Result.booksBS (r : Result) (books0 : Books) : Books := managerRunBS books0 r.events
+
 
 end BarterModel.L2Pipeline
